@@ -21,6 +21,7 @@
 -/
 import HotXL.Model.Eval
 import HotXL.Lemmas.Names
+import HotXL.Lemmas.Routes
 
 namespace HotXL.Props.C09
 open HotXL HotXL.Lexer HotXL.Syntax HotXL.Eval HotXL.Names
@@ -308,6 +309,33 @@ theorem unknown_function_formula (env : Env) (s : List Char) (c : Ctx) (name : L
   simp only [parseTop, hne, hparse, h]
   simp [name_record]
 
+/-! ### 5. route independence: a call is handed the VALUES of its arguments
+
+  "called with the evaluated arguments in order": what a call evaluates to is a function of the values
+  its argument expressions yield.  Whether a value was bound to a variable, answered by the host for a
+  cell, returned by a custom function or written as a literal makes no difference to the call — the
+  model-side statement of what the route layer of the harness (DESIGN.md 1.7) checks on the real code. -/
+
+/-- Two calls of the same name whose argument expressions yield the same values, one by one, give
+    the same record — whatever the expressions are, whatever they log and from whichever log the
+    two evaluations start. -/
+theorem call_sees_argument_values (env : Env) (name : List Char) (kind : SeqKind)
+    {a a' b b' : List Expr} {av bv : List Value} (log log' : Log)
+    (ha : Routes.Yield env a av) (ha' : Routes.Yield env a' av)
+    (hb : Routes.Yield env b bv) (hb' : Routes.Yield env b' bv) :
+    finish (evalExpr env (.call name kind a b) log).1 = finish (evalExpr env (.call name kind a' b') log').1 := by
+  rw [ErrorFlow.evalExpr_fst, ErrorFlow.evalExpr_fst, Routes.call_congr env name kind ha ha' hb hb']
+
+/-- The three host routes yield the host's value: a registered variable, a cell the listener
+    answers, a custom function without arguments. -/
+theorem host_routes_yield (env : Env) {n f l : List Char} {v : Value} {g : HostFn}
+    {row col : Cell.ParsedLabel}
+    (hv : env.vars n = some v) (hf : env.custom f = some g) (hg : g [] = .ok v)
+    (hl : Cell.extractLabel (Cell.upper l) = some (row, col)) (hc : env.cellValue (Cell.upper l) = v) :
+    ErrorFlow.outcome env (.var [n]) = .ok v ∧ ErrorFlow.outcome env (.call f .empty [] []) = .ok v ∧
+      ErrorFlow.outcome env (.cell l) = .ok v :=
+  ⟨Routes.var_route hv [], Routes.hostfn_route hf hg, by rw [Routes.cell_route hl, hc]⟩
+
 /-! ### non-vacuity -/
 
 section Examples
@@ -444,6 +472,26 @@ example : (callFunction Env.empty "SUM".toList [] []).1 ≠ .error (.xl .name) :
 example : evalExpr Env.empty ((Ctx.callA "SUM".toList .flat [one] (.neg .hole) [] []).fill (.errLit "#REF!".toList)) [] =
     (.error (throwErrorLit "#REF!".toList), []) :=
   abort_propagates Env.empty _ _ _ [] [] [] (by rfl) (by rfl)
+
+/-- `call_sees_argument_values` / `host_routes_yield`: `F(x, 2)`, `F(b2, 2)` and `F(HF(), 2)` with the
+    variable `x`, the cell `B2` and the custom function `HF` all carrying 5 give one record -/
+example :
+    let env : Env := { (setFunction (setFunction (setVariable Env.empty ['x'] (.num (.int 5))) ['F'] (fun a => .ok (.arr a)))
+                        ['H', 'F'] (fun _ => .ok (.num (.int 5)))) with cellValue := fun _ => .num (.int 5) }
+    finish (evalExpr env (.call ['F'] .flat [.var [['x']], two] []) []).1 =
+      finish (evalExpr env (.call ['F'] .flat [.cell ['b', '2'], two] []) [.var ['y']]).1 ∧
+    finish (evalExpr env (.call ['F'] .flat [.var [['x']], two] []) []).1 =
+      finish (evalExpr env (.call ['F'] .flat [.call ['H', 'F'] .empty [] [], two] []) []).1 := by
+  intro env
+  have hx : ErrorFlow.outcome env (.var [['x']]) = .ok (.num (.int 5)) := Routes.var_route (by rfl) []
+  have hc : ErrorFlow.outcome env (.cell ['b', '2']) = .ok (.num (.int 5)) := by rfl
+  have hh : ErrorFlow.outcome env (.call ['H', 'F'] .empty [] []) = .ok (.num (.int 5)) :=
+    Routes.hostfn_route (g := fun _ => .ok (.num (.int 5))) (by rfl) rfl
+  have h2 : ErrorFlow.outcome env two = .ok (.num (.int 2)) := by rfl
+  exact ⟨call_sees_argument_values env ['F'] .flat [] [.var ['y']] (av := [.num (.int 5), .num (.int 2)]) (bv := [])
+            ⟨hx, h2, trivial⟩ ⟨hc, h2, trivial⟩ trivial trivial,
+         call_sees_argument_values env ['F'] .flat [] [] (av := [.num (.int 5), .num (.int 2)]) (bv := [])
+            ⟨hx, h2, trivial⟩ ⟨hh, h2, trivial⟩ trivial trivial⟩
 
 end Examples
 
